@@ -10,7 +10,8 @@ CHECKS = {
     text="Theorems C16_chunks_concat / C16_digest_is_standard / C16_order_preserved hold for every content, buffer size >= 1, "
          "short-read pattern and algorithm tuple. The model is tied to /repo by replaying the real function with a controlled readinto "
          "and recording hash objects; recorded digests of real datasets are compared with independent one-shot digests."
-         " Overlapping calls: six threads digest different multi-chunk files at the same time; every result must equal the one-shot digest (the model treats a call as a pure function of the file's bytes - shared state between calls would falsify that).",
+         " Overlapping calls: six threads digest different multi-chunk files at the same time; every result must equal the one-shot digest (the model treats a call as a pure function of the file's bytes - shared state between calls would falsify that)."
+         " C16Src.lean re-checks on the statement order extracted from the current source that _get_hash_function returns a freshly constructed object in every branch and stores nothing, and that hash_checksums creates, feeds and then reads the objects; every algorithm is also requested twice and three times in one call.",
     note="Digest algorithms (hashlib, xxhash) and CPython file objects are modelled, not verified; streaming law is an explicit hypothesis.",
     ref="DESIGN.md §5 C16"),
  "C10": dict(
@@ -18,14 +19,15 @@ CHECKS = {
     text="C10_shard_size_bounds, C10_never_close_fails, C10_nonlast_full_or_mdchange, C10_full_except_last, C10_sessions hold for every eps>=1 and every "
          "interleaving of splits, metadata values, rejected writes and sessions. M-FILL is tied to /repo by replaying the write outcomes observed on the "
          "real filler (fb/npz/tfrec) through the compiled Lean model and comparing the listing a fresh reader sees."
-         ' System level (SedpackProps/C10System.lean): C10_enumerated_shards_in_bounds / C10_history_in_bounds carry the bound through M-TREE to every shard a reader enumerates after any history of filler sessions; C10Src.lean re-checks the roll-over test (>=, before the write) against the statement order extracted from the current source on every run.',
+         ' System level (SedpackProps/C10System.lean): C10_enumerated_shards_in_bounds / C10_history_in_bounds carry the bound through M-TREE to every shard a reader enumerates after any history of filler sessions; C10Src.lean re-checks the roll-over test (>=, before the write) and the exit guard (only shards with at least one example are closed) against the statement order extracted from the current source on every run.',
     note="Shard encoders/decoders are used only to count stored examples; writers assumed atomic per example (C18 checks that).",
     ref="DESIGN.md §5 C10"),
  "C11": dict(
     technique="Lean 4 proof (label invariant of M-FILL under value semantics; reference-semantics counterexample by decide; labels carried through M-TREE to every enumerated shard after every history) + differential correspondence incl. in-place mutation of the caller's dict",
     text="C11_md_labels, C11_every_write_listed_once, C11_select_by_md for every write sequence; C11_alias_counterexample is the kernel-checked witness of the "
          "pinned by-reference defect (fixed in /repo). Correspondence runs mutate and reuse the caller's objects across size boundaries and splits."
-         ' System level (SedpackProps/C11System.lean): C11_enumerated_shard_origin, C11_enumerated_shards_labelled, C11_history_labelled: every shard entry a reader enumerates after any history is the record of a closed shard whose examples written under a non-empty value were written under the recorded one.',
+         ' System level (SedpackProps/C11System.lean): C11_enumerated_shard_origin, C11_enumerated_shards_labelled, C11_history_labelled: every shard entry a reader enumerates after any history is the record of a closed shard whose examples written under a non-empty value were written under the recorded one.'
+         ' C11Src.lean re-checks on the statement order extracted from the current source that the label assigned to the open shard is the result of deepcopy, attached after the write was accepted. Directed runs keep ONE metadata object and change the distinguishing value in place inside containers of several kinds (a list held by a tuple, a set, nested tuples).',
     note="Examples written with absent metadata are unconstrained (documented retroactive labelling). JSON round-trip of metadata values is C20's concern.",
     ref="DESIGN.md §5 C11"),
  "C18": dict(
@@ -43,7 +45,8 @@ CHECKS = {
          "C13_reuse_is_fresh_pass / _reuse_exactly_once / _reuse_old_workers_drain (a re-used pool object is a list of independent passes: M-POOL Multi), "
          "prefill P>=T, finite or infinite input, every failing set and every interleaving; C13_original_deadlocks is the kernel-checked stuck state of the pinned "
          "code (fixed in /repo). The real pool runs under a scheduler that owns every queue operation (deadlock decided exactly); each trace must be accepted by the "
-         "compiled model with the measured P and end in a terminal model state; re-use is exercised both after draining and overlapped (second pass started while the abandoned pass's workers are still scheduled). Thorough adds exhaustive schedule enumeration for tiny (T,n) as model validation.",
+         "compiled model with the measured P and end in a terminal model state; re-use is exercised both after draining and overlapped (second pass started while the abandoned pass's workers are still scheduled). Thorough adds exhaustive schedule enumeration for tiny (T,n) as model validation."
+         " C13Src.lean re-checks on the statement order extracted from the current source that __exit__ calls finish_and_reset first, once and outside any branch, and that the reset puts the sentinels before it forgets the queue, and the shapes of imap_unordered (refill put before the yield, reset before a forwarded failure is re-raised) and Collector.run (whatever the mapped function does, something is put); the consumer leaves the context by break and by exceptions of every kind (KeyboardInterrupt, SystemExit, GeneratorExit, ...).",
     note="CPython queue.Queue (FIFO, blocking get) and threading are the modelled boundary; abandoning is allowed at any point between two results (a superset of the yield points).",
     ref="DESIGN.md §5 C13, Appendix A.1"),
  "C02": dict(
@@ -52,7 +55,8 @@ CHECKS = {
          "C02_exactly_once_sync/_concurrent/_async: every complete run of an interface yields a permutation of (selected shards' examples).map g, for every shuffle size, "
          "file_parallelism>=1 and schedule. The monitors are tied to /repo by replaying boundary traces of the real shuffle_buffer/round_robin (sync and async); "
          "datasets are read through sync/concurrent/async/rust/tf.data and compared as multisets with process_record call counts."
-         ' System level (SedpackProps/C02System.lean): C02_session_examples_perm / C02_history_examples_perm / C02_written_is_enumerated (the examples enumerated for a split after any history of sessions with fresh shard names are, as a multiset, exactly the examples the sessions stored for it) and C02_end_to_end (composed with the pipeline theorems: one pass of the synchronous, concurrent or asyncio interface or of the Rust reader (C02_exactly_once_rust over M-PMAP) - any shuffle size, parallelism and schedule - delivers a permutation of everything written).',
+         ' System level (SedpackProps/C02System.lean): C02_session_examples_perm / C02_history_examples_perm / C02_written_is_enumerated (the examples enumerated for a split after any history of sessions with fresh shard names are, as a multiset, exactly the examples the sessions stored for it) and C02_end_to_end (composed with the pipeline theorems: one pass of the synchronous, concurrent or asyncio interface or of the Rust reader (C02_exactly_once_rust over M-PMAP) - any shuffle size, parallelism and schedule - delivers a permutation of everything written).'
+         ' C02Src.lean re-checks on the statement order extracted from the current source that no reading-side function stores anything on the dataset object and that every pass starts from shard_info_iterator (a pass is a function of the description as it is now).',
     note="tf.data operators and the Rust reader's timing are specified externals (outputs compared). Which shards are selected is C12/C04.",
     ref="DESIGN.md §5 C02"),
  "C03": dict(
@@ -60,7 +64,8 @@ CHECKS = {
     text="C03_sync/_concurrent/_async_unshuffled_eq, C03_interfaces_agree, C03_session_order; SedpackProps/C03System.lean: C03_filler_session_end_to_end, C03_enumeration_of_flat_split, C03_reader_sees_write_order "
          "(the three models composed: write_example ... write_config ... as_numpy_iterator*, for every operation sequence, history, shard size and read parallelism). The real interfaces are run with shuffle=0 over two passes and a reopened handle, "
          "file_parallelism 1..#shards+2 and seeded loader delays; sequences must equal the write order; the executor batches are compared with Iter.batches."
-         " SedpackProps/C03Rust.lean: C03_rust_unshuffled_eq - the Rust reader (shard list -> full pass of M-PMAP with any thread count and interleaving -> each shard's examples in order) yields the same list.",
+         " SedpackProps/C03Rust.lean: C03_rust_unshuffled_eq - the Rust reader (shard list -> full pass of M-PMAP with any thread count and interleaving -> each shard's examples in order) yields the same list."
+         " C03Src.lean re-checks on the statement order extracted from the current source the shape M-PIPE gives the unshuffled pipelines (batches by islice, ordered map, chain; nothing compared or filtered) and that the reading side keeps no state on the handle.",
     note="Executor.map ordering, tf.data deterministic interleave and the Rust channel order are specified externals; the shard enumeration order of nested lists is proved with M-TREE (C04 file).",
     ref="DESIGN.md §5 C03"),
  "C14": dict(
@@ -68,13 +73,15 @@ CHECKS = {
     text="C14_shuffle_buffer_readahead (<= b+1, <= b between nexts), C14_shuffle_buffer_prefill, C14_round_robin_readahead (<= b open), C14_pool_inflight (<= 2T+2), "
          "C14_batches_bounded, C14_shuffle_buffer_productive. Measured pulled-yielded of the real code equals the monitor's value on the same trace; LazyPool read-ahead "
          "is checked to be independent of the input length; shard opens for k examples of a repeating stream are bounded independently of the dataset size."
-         ' Rust reader (SedpackProps/C14Rust.lean): C14_rust_total_read_ahead - in every reachable state of M-PMAP, also after drop, the items taken from the input are at most the results returned plus the worker count; the cargo harness measures exactly that on the real parallel_map (instrumented input iterator: pulled for k results, and by the time the iterator is dropped) and the recorded channel operations must contain no next() after drop.',
+         ' Rust reader (SedpackProps/C14Rust.lean): C14_rust_total_read_ahead - in every reachable state of M-PMAP, also after drop, the items taken from the input are at most the results returned plus the worker count; the cargo harness measures exactly that on the real parallel_map (instrumented input iterator: pulled for k results, and by the time the iterator is dropped) and the recorded channel operations must contain no next() after drop.'
+         ' C14Src.lean re-checks on the statement order extracted from the current source that the four stage generators contain no comparison (they never look at the elements they move), pull once per iteration and yield before they overwrite a slot; streams of None / falsy / unhashable / array elements are run through the three stages.',
     note="Memory inside TensorFlow / the Rust extension is out of scope; the shard-path shuffle buffer holds path strings only.",
     ref="DESIGN.md §5 C14"),
  "C19": dict(
     technique="Lean 4 proof (cycle periodicity, repeated one-pass stream, no finish without end-of-source, yielded ⊆ pulled, Rust epoch permutation) + end-to-end prefixes of several epochs through every interface",
     text="C19_cycle_periodic, C19_unshuffled_stream, C19_shuffle_buffer_never_ends, C19_only_pulled(_rr), C19_rust_epoch. The first m*N+r elements of every interface with "
-         "repeat=True are compared with onepass[k mod N] (unshuffled), checked for membership and non-termination (shuffled) and per-epoch permutation (Rust).",
+         "repeat=True are compared with onepass[k mod N] (unshuffled), checked for membership and non-termination (shuffled) and per-epoch permutation (Rust)."
+         " C19Repeat.lean (over C19Gen.lean, a table of every read of the repeat flag generated from dataset_iteration.py on every run): the flag is only truth-tested, forwarded under its own name or stored for a later truth test, defaults to on in every interface, and tf.data's repeat is called without a count; C19Src.lean: the path list is cycled (itertools.cycle) before the shard-level shuffle. repeat is spelled True / default / numpy.True_ / 1 in rotation.",
     note="tf.data.repeat is a specified external.",
     ref="DESIGN.md §5 C19"),
  "C04": dict(
@@ -120,21 +127,24 @@ CHECKS = {
     technique="Lean 4 proof (sublist / first-k / filter / per-metadata-limit / empty-is-error theorems about the selection routine) + a theorem over a wiring table regenerated from the source by an ast translator on every run + differential and end-to-end comparison across all interfaces and formats",
     text="C12_select_sublist, _firstk, _filter, _limit, _empty_is_error, _nonempty, and C12_every_interface_forwards (decide over SedpackProps/C12Gen.lean, regenerated from dataset_iteration.py "
          "before every build: a dropped option breaks the proof obligation directly). The model's selection is compared with the real shard_paths_dataset; every interface that accepts an option "
-         "is run on fb/npz/tfrec datasets with contiguous and interleaved metadata groups (flat and nested values) and must yield exactly the selected shards' examples.",
+         "is run on fb/npz/tfrec datasets with contiguous and interleaved metadata groups (flat and nested values) and must yield exactly the selected shards' examples."
+         " C12Src.lean re-checks on the statement order extracted from the current source that the selection is recomputed from shard_info_iterator on every call (nothing stored on the handle) and applies predicate, emptiness test, per-metadata limit in that order; the limits are also given as NumPy integer scalars.",
     note="Grouping key = equality of the metadata value. Once the shard list is fixed, delivery is C02. The ast extractor is trusted code.",
     ref="DESIGN.md §5 C12"),
  "C17": dict(
     technique="Lean 4 proof (for every path string the repaired validators accept, root/path normalises to root ++ components; everything outside is rejected; pinned-validator counterexample by decide) + grammar-generated strings through pathlib and the real validators, crafted hostile datasets with every file open recorded",
     text="C17_validator_contains, C17_rejects_outside, C17_list_and_subdir_validators, C17_list_name, C17_reads_inside, C17_absolute_counterexample. M-PATH's parser/join/validators are compared with "
          "pathlib, FileInfo, ShardsList, ShardListInfo and the filler guard on hundreds (thorough: thousands) of grammar strings; datasets whose shard / child-list / self paths point outside "
-         "the root (absolute, relative, via ..) are opened, checked, iterated and written: nothing outside may be opened or created.",
+         "the root (absolute, relative, via ..) are opened, checked, iterated and written: nothing outside may be opened or created."
+         " C17Src.lean re-checks on the statement order extracted from the current source that the filler context only stores its arguments after its two guards (nothing transforms the sub-directory between check and use) and that every shard location goes through the validating FileInfo constructor; sub-directories holding $VAR / ${VAR} / ~ are written with the variables set to values that lead outside.",
     note="No symlinks inside the dataset directory; pathlib's parser is modelled (and compared). Native readers' opens are seen through their results (a recognisable example id) and the audit hook.",
     ref="DESIGN.md §5 C17"),
  "C20": dict(
     technique="Lean 4 proof (version gate characterised for all triples; dump-without-defaults/load-with-defaults identity for every document; relocation invariance from C17's containment) + differential runs of the gate and of pydantic's exclude_defaults, generated descriptions and relocated datasets",
     text="C20_gate, C20_same_or_older_loads, C20_defaults_roundtrip, C20_relocation_invariant. Version triples around the running version (incl. multi-digit components) are stamped into real datasets and "
          "the verdict compared with Ver.loads and with numeric tuple comparison; random ShardsList documents go through model_dump_json(exclude_defaults)/validate and the model's dump/load; descriptions with "
-         "unicode and nested JSON metadata at dataset/attribute/shard level are reopened and compared; copies/moves (nested, unicode, blank, cwd-relative) are opened, checked, iterated and written to.",
+         "unicode and nested JSON metadata at dataset/attribute/shard level are reopened and compared; copies/moves (nested, unicode, blank, cwd-relative) are opened, checked, iterated and written to."
+         " C20Src.lean re-checks on the statement order extracted from the current source that DatasetBase.__init__ resolves the root after and outside the try around expanduser and stores the resolved path last.",
     note="pydantic-core's JSON text layer and semver's parser are externals (partial: exercised, not proved).",
     ref="DESIGN.md §5 C20"),
  "C15": dict(
